@@ -23,7 +23,7 @@ let zseqs_str l = if l = [] then "-" else String.concat "," (List.map (fun q -> 
 let parse_sseqs s =
   if s = "-" then [] else
   List.map (fun q -> match String.split_on_char '.' q with
-      | [l; m; o] -> { t_ll = n l; t_ml = n m; t_ob = n o } | _ -> failwith "bad sseq") (String.split_on_char ';' s)
+      | [l; m; o] -> { t_ll = n l; t_ml = n m; t_ob = n o; t_raw = N0 } | _ -> failwith "bad sseq") (String.split_on_char ';' s)
 let parse_dec s = if s = "-" then [] else List.init (String.length s) (fun k -> s.[k] = '1')
 
 let () =
@@ -31,9 +31,9 @@ let () =
     while true do
       let line = input_line stdin in
       (match String.split_on_char ' ' (String.trim line) with
-       | ["Q"; id; wlog; mm; vl; pr; dict; maxnb; vfix; delims; ers; bsmax; srcsize; rep; dec; seqs] ->
+       | ["Q"; id; wlog; mm; vl; pr; dict; maxnb; vfix; vraw; delims; ers; bsmax; srcsize; rep; dec; seqs] ->
          let cfg = { g_wlog = n wlog; g_minMatch = n mm; g_validate = b vl; g_producer = b pr; g_dict = n dict;
-                     g_maxNbSeq = n maxnb; g_vfix = b vfix } in
+                     g_maxNbSeq = n maxnb; g_vfix = b vfix; g_vraw = b vraw } in
          (match compress_sequences cfg (b delims) (b ers) (n bsmax) (n srcsize) (parse_seqs seqs) (parse_rep rep) (parse_dec dec) with
           | Done blks ->
             Printf.printf "%s OK %s\n" id
@@ -42,23 +42,27 @@ let () =
                      (if k.b_last then 1 else 0) (rep_str k.b_rep_in) (sseqs_str k.b_seqs)) blks))
           | Invalid s -> Printf.printf "%s INVALID %d\n" id (i s)
           | Oob s -> Printf.printf "%s OOB %d\n" id (i s))
-       | ["P"; id; wlog; mm; vl; dict; maxnb; vfix; ers; fb; nb; cap; srcsize; rep; seqs] ->
+       | ["P"; id; wlog; mm; vl; dict; maxnb; vfix; vraw; ers; fb; nb; cap; srcsize; rep; seqs] ->
          let cfg = { g_wlog = n wlog; g_minMatch = n mm; g_validate = b vl; g_producer = true; g_dict = n dict;
-                     g_maxNbSeq = n maxnb; g_vfix = b vfix } in
+                     g_maxNbSeq = n maxnb; g_vfix = b vfix; g_vraw = b vraw } in
          (match producer_block cfg (b ers) (b fb) (parse_seqs seqs) (n nb) (n cap) (n srcsize) (parse_rep rep) with
           | PRstore br -> Printf.printf "%s STORE %d/%s/%s\n" id (i br.r_lastLL) (rep_str br.r_rep) (sseqs_str br.r_seqs)
           | PRfallback -> Printf.printf "%s FALLBACK\n" id
           | PRfail_producer -> Printf.printf "%s FAILPRODUCER\n" id
           | PRfail_invalid s -> Printf.printf "%s FAILINVALID %d\n" id (i s)
           | PRoob s -> Printf.printf "%s OOB %d\n" id (i s))
+       | ["PP"; id; nb; cap; srcsize; seqs] ->
+         (match post_process (parse_seqs seqs) (n nb) (n cap) (n srcsize) with
+          | PPok l -> Printf.printf "%s OK %s\n" id (zseqs_str l)
+          | PPfail -> Printf.printf "%s FAIL\n" id)
        | ["M"; id; seqs] -> Printf.printf "%s OK %s\n" id (zseqs_str (merge_delims (parse_seqs seqs) N0))
-       | ["G"; id; rep; lastll; stored] ->
-         let l = generate_block (parse_sseqs stored) (n lastll) (parse_rep rep) in
+       | ["G"; id; fixll; rep; lastll; stored] ->
+         let l = generate_block (b fixll) (parse_sseqs stored) (n lastll) (parse_rep rep) in
          Printf.printf "%s OK %s\n" id (String.concat "," (List.map (fun g ->
              Printf.sprintf "%d:%d:%d:%d" (i g.o_seq.q_off) (i g.o_seq.q_ll) (i g.o_seq.q_ml) (i g.o_rep)) l))
        | ["U"; id; "v"; wlog; mm; pr; dict; ob; ml; pos] ->
          let cfg = { g_wlog = n wlog; g_minMatch = n mm; g_validate = true; g_producer = b pr; g_dict = n dict;
-                     g_maxNbSeq = N0; g_vfix = false } in
+                     g_maxNbSeq = N0; g_vfix = false; g_vraw = false } in
          Printf.printf "%s %d\n" id (if validate_sequence cfg (n ob) (n ml) (n pos) then 1 else 0)
        | ["U"; id; "f"; raw; rep; ll0] ->
          let r = parse_rep rep in
